@@ -200,6 +200,9 @@ func TrimPrefix(s, prefix string) string {
 		}
 		return s
 	}
+	if i != len(prefix) {
+		return s // s exhausted before prefix
+	}
 	return s[i:]
 
 hasUnicode:
